@@ -175,7 +175,7 @@ def lattice_starts(seed, tier):
 def required_cells(tier):
     pts = {
         "hook:tempo": 1000, "hook:meanfield": 1000, "hook:pttempo": 1000,
-        "hook:tcut": 100, "end:literal": 1000, "end:float": 100,
+        "hook:tcut": 100, "hook:backend-memory": 1000, "end:literal": 1000, "end:float": 100,
         "end:offgrid": 1000, "quotient-below-integer": 50,
         "quotient-exact-or-above": 50,
         "api:tempo": 100, "api:meanfield": 100, "api:pttempo": 100,
@@ -494,6 +494,32 @@ def run_hook(case):
                         f"{p.dkmax}, expected {n}", "tcut-dkmax",
                         {"dt": dt, "tcut": tcut, "variant": tag,
                          "got": int(p.dkmax), "expected": n})
+                    continue
+                # ... and the back-ends built from such parameters (given as
+                # tcut or as dkmax) keep exactly n steps of memory
+                for ptag, par_k in ((tag, p), ("dkmax", oqupy.TempoParameters(
+                        dt=dt, epsrel=EPSREL, dkmax=n))):
+                    if ptag == "dkmax" and tag != "literal":
+                        continue
+                    ptt = oqupy.PtTempo(bath, 0.0, (n + 3.5) * dt, par_k)
+                    tmp = oqupy.Tempo(
+                        oqupy.TimeDependentSystem(model.hamiltonian), bath,
+                        par_k, RHO0, 0.0)
+                    for what, obj in (("PtTempo", ptt), ("Tempo", tmp)):
+                        be = getattr(obj, "_backend_instance", None)
+                        got_k = getattr(be, "_dkmax", None)
+                        if be is None or got_k is None:
+                            book.cell("hook-missing:memory")
+                            continue
+                        book.cell("hook:backend-memory")
+                        if int(got_k) != n:
+                            book.violation(
+                                f"{what} built with {ptag}={tcut!r} "
+                                f"(dt={dt!r}) keeps {int(got_k)} steps of "
+                                f"memory, expected {n}", "backend-dkmax",
+                                {"dt": dt, "tcut": tcut, "variant": ptag,
+                                 "got": int(got_k), "expected": n,
+                                 "object": what})
     if not (have_t and have_m):
         book.cell("hook-missing")
     sig = ("hook", case["dti"], repr(dt), repr(start), nsens > 0)
